@@ -100,7 +100,9 @@ func c12Bytes(r *rand.Rand, cl bool) []byte {
 	return append([]byte{tag, byte(len(body))}, body...)
 }
 
-func (c12) Gen(tier string, seed int64, emit func([]Ev)) {
+func (c12) Gen(tier string, seed int64, emit0 func([]Ev)) {
+	emit, flush := grouper(emit0, "decode")
+	defer flush()
 	r := rand.New(rand.NewSource(seed))
 	n := 1500
 	if tier == "thorough" {
@@ -164,8 +166,11 @@ func c12RandInstant(r *rand.Rand) (uint64, int) {
 }
 
 func (c12) Exec(h []Ev) []Ev {
+	var held holder
 	for _, e := range h {
+		e["earlier_same"] = true
 		e["panic"] = guard(func() {
+			defer func() { e["earlier_same"] = held.same() }()
 			switch GS(e["op"]) {
 			case "decode":
 				b := GB(e["bytes"])
@@ -176,6 +181,7 @@ func (c12) Exec(h []Ev) []Ev {
 				if err == nil {
 					e["g"] = c12Getters(x)
 					e["redata"] = B(x.Data())
+					defer held.hold(func() string { return jsonOf(c12Getters(x)) + jsonOf(B(x.Data())) })
 				}
 				e["input_same"] = string(b) == string(keep)
 			case "build":
